@@ -1070,10 +1070,9 @@ func (d *Data) SplitSupervoxel(v dvid.VersionID, svlabel, splitlabel, remainlabe
 		d.restoreOldBlocks(ctx, numBlocks, origBlocks)
 		return
 	}
+	// addSupervoxelSplitToMapping also appends the split to the mutation log; logging it here a second time
+	// made every restart replay the split twice (duplicate records in supervoxel-splits).
 	if err = addSupervoxelSplitToMapping(d, v, op); err != nil {
-		return
-	}
-	if err = labels.LogSupervoxelSplit(d, v, op); err != nil {
 		return
 	}
 	// store the new split index
